@@ -1,115 +1,87 @@
 (* Properties_C19_yl.v - property C19 (a context can be rebuilt from its own yang-library description):
    theorem statements only.
-   Models: ModHash.v (ly_ctx_get_modules_hash with lysp_feature_next, change counter), YangLib.v
-   (ly_ctx_get_yanglib_data, ly_ctx_new_yldata, ly_ctx_load_module); proofs: ModHashP.v, YangLibP.v.
-   modhash_gen false = the code as it is (feature iterator index never reset), modhash_gen true = index reset per
-   module (suggested fix); modhash = modhash_gen FI_RESET is what the correspondence check runs. *)
+   Models: ModHash.v (ly_ctx_get_modules_hash with lysp_feature_next, change counter; as of /repo commits c8adb05,
+   d4e18d7), YangLib.v (ly_ctx_get_yanglib_data, ly_ctx_new_yldata, ly_ctx_load_module); proofs: ModHashP.v, YangLibP.v.
+   modhash = modhash_gen true is the code as it is (feature iterator index reset per module), mod_stream the byte
+   stream it hashes; modhash_gen false is the former code and only appears in the regression example. *)
 From LY Require Import Base HashFn ModHash ModHashP YangLib YangLibP.
 Local Open Scope N_scope.
 
 (* ---------------------------------- module-set hash ---------------------------------- *)
 
 (* The model never runs out of fuel, and the value is lyht_hash_multi folded over exactly these strings: per
-   module its name, its revision if any, the names of the enabled features the iterator visits, the implemented
-   byte; then the finalisation. *)
+   module its name, its revision if any, the names of all its enabled features (module, then submodules), the
+   implemented byte; then the finalisation. *)
 Theorem C19_modhash_is_hash_of_chunks :
-  forall reset ms, modhash_gen reset ms = Some (hash_chunks (chunks_gen reset ms)).
-Proof. exact modhash_gen_chunks. Qed.
+  forall ms, modhash ms = Some (hash_chunks (chunks_gen true ms)).
+Proof. exact (modhash_gen_chunks true). Qed.
 Print Assumptions C19_modhash_is_hash_of_chunks.
 
 (* For modules whose names, revisions and feature names are not empty (guaranteed by the YANG parser) the value
    is the one-at-a-time hash of the concatenation of those strings: nothing but the byte stream matters. *)
 Theorem C19_modhash_is_hash_of_stream :
-  forall reset ms, forallb wf_mod ms = true -> modhash_gen reset ms = Some (hash_stream (stream_gen reset ms)).
-Proof. exact modhash_gen_stream. Qed.
+  forall ms, forallb wf_mod ms = true -> modhash ms = Some (hash_stream (mod_stream ms)).
+Proof. exact (modhash_gen_stream true). Qed.
 Print Assumptions C19_modhash_is_hash_of_stream.
 
-(* modhash_congruent: equal ordered observables (name, revision, implemented, enabled feature names per feature
-   array) give equal hashes; holds for the code as it is and for the fixed code. *)
+(* modhash_congruent: equal ordered observables (name, revision, implemented, the enabled feature names of module
+   and submodules as one list) give equal hashes. *)
 Theorem C19_modhash_congruent :
-  forall ms ms', map obs ms = map obs ms' -> modhash ms = modhash ms'.
-Proof. exact (modhash_gen_congruent FI_RESET). Qed.
+  forall ms ms', map obs_flat ms = map obs_flat ms' -> modhash ms = modhash ms'.
+Proof. exact modhash_fixed_congruent_flat. Qed.
 Print Assumptions C19_modhash_congruent.
 
-(* with the index reset the hash only depends on the flat list of enabled feature names *)
-Theorem C19_modhash_fixed_congruent_flat :
-  forall ms ms', map obs_flat ms = map obs_flat ms' -> modhash_gen true ms = modhash_gen true ms'.
-Proof. exact modhash_fixed_congruent_flat. Qed.
-Print Assumptions C19_modhash_fixed_congruent_flat.
+(* the same on the finer observable that keeps the feature arrays apart *)
+Theorem C19_modhash_congruent_obs :
+  forall ms ms', map obs ms = map obs ms' -> modhash ms = modhash ms'.
+Proof. exact (modhash_gen_congruent true). Qed.
+Print Assumptions C19_modhash_congruent_obs.
 
-(* modhash_stream_reads_every_field, part 1 (holds as coded and fixed): changing the name, the revision or the
-   implemented flag of ANY one module of a list changes the hashed byte stream. *)
+(* modhash_stream_reads_every_field, part 1: changing the name, the revision or the implemented flag of ANY one
+   module of a list changes the hashed byte stream. *)
 Theorem C19_modhash_stream_reads_name_rev_impl :
-  forall reset pre m m' post, wf_mod m = true -> wf_mod m' = true -> field_change m m' ->
-    stream_gen reset (pre ++ m :: post) <> stream_gen reset (pre ++ m' :: post).
-Proof. exact stream_reads_name_rev_impl. Qed.
+  forall pre m m' post, wf_mod m = true -> wf_mod m' = true -> field_change m m' ->
+    mod_stream (pre ++ m :: post) <> mod_stream (pre ++ m' :: post).
+Proof. exact (stream_reads_name_rev_impl true). Qed.
 Print Assumptions C19_modhash_stream_reads_name_rev_impl.
 
-(* part 2, at full strength for the FIXED function: toggling one feature (of the module itself or of any
-   submodule, g = number of the feature array) of ANY module changes the hashed byte stream. *)
-Theorem C19_modhash_fixed_stream_reads_every_feature :
+(* part 2, full strength: toggling one feature (of the module itself or of any submodule, g = number of the
+   feature array) of ANY module changes the hashed byte stream.
+   History: false for the code before c8adb05 (fi not reset: the features of every module but the first were
+   skipped); it was proved for the first module only and refuted with the witness of C19_former_fi_witness. *)
+Theorem C19_modhash_stream_reads_every_feature :
   forall pre m m' post g fname, feature_toggled m m' g fname -> nonempty fname = true ->
-    stream_gen true (pre ++ m :: post) <> stream_gen true (pre ++ m' :: post).
+    mod_stream (pre ++ m :: post) <> mod_stream (pre ++ m' :: post).
 Proof. exact stream_fixed_reads_features. Qed.
-Print Assumptions C19_modhash_fixed_stream_reads_every_feature.
+Print Assumptions C19_modhash_stream_reads_every_feature.
 
-(* part 2 as coded, partial: only the features of the FIRST module are read ... *)
-Theorem C19_modhash_stream_reads_features_partial :
-  forall m m' post g fname, feature_toggled m m' g fname -> nonempty fname = true ->
-    stream_gen false (m :: post) <> stream_gen false (m' :: post).
-Proof. exact stream_coded_reads_features_first. Qed.
-Print Assumptions C19_modhash_stream_reads_features_partial.
+(* regression: the former refutation witness.  m1 revision 2020-01-01 with a on, b off and m2 with c on / c off
+   used to have the one hash 2169919692 (model of the former code); now they have two (both values confirmed on
+   the library). *)
+Example C19_former_fi_witness :
+  modhash [w_m1; w_m2 true] = Some 2926982747 /\ modhash [w_m1; w_m2 false] = Some 2169919692 /\
+  modhash_gen false [w_m1; w_m2 true] = Some 2169919692 /\ modhash_gen false [w_m1; w_m2 false] = Some 2169919692.
+Proof. destruct fi_witness as (H1 & H2 & H3 & H4 & _). repeat split; assumption. Qed.
 
-(* ... and for every module that is not the first one, the features of the module itself are NOT read: the
-   hash is the same whatever their state (defect: fi is not reset; finding yl-hash-fi). *)
-Theorem C19_modhash_skips_features_of_later_modules :
-  forall pre m m' post fname, pre <> [] -> feature_toggled m m' O fname ->
-    modhash_gen false (pre ++ m :: post) = modhash_gen false (pre ++ m' :: post).
-Proof. exact modhash_coded_skips_own_features. Qed.
-Print Assumptions C19_modhash_skips_features_of_later_modules.
-
-(* modhash_stream_reads_every_field refuted for the code as it is, concrete witness (confirmed on the library):
-   m1 revision 2020-01-01 with a on, b off and m2 with c on / c off: different observables, one hash; the fixed
-   function tells them apart. *)
-Theorem C19_modhash_reads_every_feature_refuted :
-  exists ms ms', forallb wf_mod ms = true /\ forallb wf_mod ms' = true /\ map obs ms <> map obs ms' /\
-    modhash_gen false ms = Some 2169919692 /\ modhash_gen false ms' = Some 2169919692 /\
-    modhash_gen true ms <> modhash_gen true ms'.
-Proof.
-  exists [w_m1; w_m2 true], [w_m1; w_m2 false].
-  destruct fi_witness as (H1 & H2 & H3 & H4 & H5).
-  split; [reflexivity|]. split; [reflexivity|]. split; [exact H5|]. split; [exact H1|]. split; [exact H2|].
-  rewrite H3, H4. discriminate.
-Qed.
-Print Assumptions C19_modhash_reads_every_feature_refuted.
-
-(* whenever the switch FI_RESET is on (after the fix), the function the correspondence check runs reads every
-   feature of every module *)
-Theorem C19_modhash_reads_every_feature_when_reset :
-  FI_RESET = true -> forall pre m m' post g fname, feature_toggled m m' g fname -> nonempty fname = true ->
-    stream_gen FI_RESET (pre ++ m :: post) <> stream_gen FI_RESET (pre ++ m' :: post).
-Proof. intros E. rewrite E. exact stream_fixed_reads_features. Qed.
-Print Assumptions C19_modhash_reads_every_feature_when_reset.
-
-(* The byte stream does not determine the module set, with or without the fix: the strings are fed without
-   separators or lengths (finding yl-hash-concat).  Witnesses (confirmed on the library): module m with features
-   a, ab, bc, c and {ab, c} or {a, bc} enabled; module a revision 2020-01-01 and module a2020-01-01 without revision. *)
+(* The byte stream does not determine the module set: the strings are fed without separators or lengths
+   (finding yl-hash-concat).  Witnesses (confirmed on the library): module m with features a, ab, bc, c and
+   {ab, c} or {a, bc} enabled; module a revision 2020-01-01 and module a2020-01-01 without revision. *)
 Theorem C19_modhash_stream_injective_refuted :
-  forall reset, exists ms ms', forallb wf_mod ms = true /\ forallb wf_mod ms' = true /\
-    map obs_flat ms <> map obs_flat ms' /\ stream_gen reset ms = stream_gen reset ms' /\
-    modhash_gen reset ms = modhash_gen reset ms'.
+  exists ms ms', forallb wf_mod ms = true /\ forallb wf_mod ms' = true /\
+    map obs_flat ms <> map obs_flat ms' /\ mod_stream ms = mod_stream ms' /\ modhash ms = modhash ms'.
 Proof.
-  intros reset. exists [w_amb false true false true], [w_amb true false true false].
-  destruct (concat_witness reset) as (H1 & H2 & H3 & H4 & _).
-  split; [reflexivity|]. split; [reflexivity|]. split; [exact H4|]. split; [exact H1|]. rewrite H2, H3. reflexivity.
+  exists [w_amb false true false true], [w_amb true false true false].
+  destruct (concat_witness true) as (H1 & H2 & H3 & H4 & _).
+  split; [reflexivity|]. split; [reflexivity|]. split; [exact H4|]. split; [exact H1|].
+  unfold modhash. change FI_RESET with true. rewrite H2, H3. reflexivity.
 Qed.
 Print Assumptions C19_modhash_stream_injective_refuted.
 
 Theorem C19_modhash_name_revision_boundary_refuted :
-  forall reset, map obs_flat [w_nr1] <> map obs_flat [w_nr2] /\ stream_gen reset [w_nr1] = stream_gen reset [w_nr2] /\
-    modhash_gen reset [w_nr1] = Some 3673482515 /\ modhash_gen reset [w_nr2] = Some 3673482515.
+  map obs_flat [w_nr1] <> map obs_flat [w_nr2] /\ mod_stream [w_nr1] = mod_stream [w_nr2] /\
+  modhash [w_nr1] = Some 3673482515 /\ modhash [w_nr2] = Some 3673482515.
 Proof.
-  intros reset. destruct (concat_witness reset) as (_ & _ & _ & _ & H5 & H6 & H7 & H8).
+  destruct (concat_witness true) as (_ & _ & _ & _ & H5 & H6 & H7 & H8).
   split; [exact H8|]. split; [exact H5|]. split; assumption.
 Qed.
 Print Assumptions C19_modhash_name_revision_boundary_refuted.
@@ -124,8 +96,10 @@ Print Assumptions C19_spec_stream_injective.
 
 (* ---------------------------------- change counter ---------------------------------- *)
 
-(* The counter is a uint16_t incremented once per module added and once per module compiled.  After an operation
-   with n such events, 0 < n < 2^16, its value differs from the value before. *)
+(* The counter is a uint16_t incremented once per module added, per module compiled, per module made implemented
+   and per feature change of an implemented module (the last two since d4e18d7, so also under
+   LY_CTX_EXPLICIT_COMPILE every change has an event).  After an operation with n such events, 0 < n < 2^16,
+   its value differs from the value before. *)
 Theorem C19_change_count_differs :
   forall c n, c < U16 -> 0 < n < U16 -> cc_after c n <> c.
 Proof. exact cc_after_changes. Qed.
